@@ -7,6 +7,7 @@ import (
 	"strings"
 	"testing"
 
+	textwire "github.com/textwire/textwire/v2"
 	"pgregory.net/rapid"
 	"verif/lib/harness"
 	"verif/lib/refint"
@@ -64,6 +65,11 @@ func c10Run(c *harness.Check, cs escCase) string {
 			again, hasAgain = tr.Again.Out, true
 		}
 	} else {
+		if strings.HasPrefix(cs.Context, "custom") {
+			if f := c10RegisterCustom(); f != "" {
+				return "registering a function on the reset package state failed: " + f
+			}
+		}
 		r := evalString(c, "json", mustJSON(cs), cs.Src, nil)
 		if r.Panic != nil {
 			return "panic: " + r.Panic.Value
@@ -152,8 +158,15 @@ func c10Contexts(lit string) []escCase {
 		mk("loop-body", "@each(i in [1, 2, 3])[{{ "+lit+" }}]@end", "[", "]["+c10Escape(rawOf(lit))+"]["+c10Escape(rawOf(lit))+"]"),
 		mk("for-body", "@for(i = 0; i < 2; i++)[{{ x = "+lit+"; x }}]@end", "[", "]["+c10Escape(rawOf(lit))+"]"),
 		mk("plain-after-upper", "{{ v = "+lit+" }}{{ v.upper().len() }}[{{ v }}]", "", "]"),
+		// the literal handed to a registered Go function that gives it back: it is still the literal's text
+		mk("custom-identity", "[{{ "+lit+".zzSame() }}]", "[", "]"),
+		mk("custom-identity-of-variable", "{{ v = "+lit+" }}[{{ v.zzSame() }}]", "[", "]"),
+		mk("custom-append", "[{{ "+lit+".zzTail() }}]", "[", "tail]"),
+		mk("custom-argument", "[{{ 'r'.zzArg("+lit+") }}]", "[", "]"),
+		mk("custom-in-each", "@each(e in ["+lit+", "+lit+"])[{{ e.zzSame() }}]@end", "[", "]["+c10Escape(rawOf(lit))+"]"),
 	}
 	raws := []escCase{
+		mk("custom-identity-then-raw", "[{{ "+lit+".zzSame().raw() }}]", "[", "]"),
 		mk("raw", "[{{ "+lit+".raw() }}]", "[", "]"),
 		mk("raw-assigned", "{{ v = "+lit+" }}[{{ v.raw() }}]", "[", "]"),
 		mk("raw-concat", "[{{ ("+lit+" + '').raw() }}]", "[", "]"),
@@ -162,6 +175,28 @@ func c10Contexts(lit string) []escCase {
 		raws[i].Raw = true
 	}
 	return append(cases, raws...)
+}
+
+// c10RegisterCustom registers (on a reset package state) the Go functions of the custom-* contexts.
+func c10RegisterCustom() string {
+	textwire.VerifReset()
+	for _, err := range []error{
+		textwire.RegisterStrFunc("zzSame", func(s string, a ...any) string { return s }),
+		textwire.RegisterStrFunc("zzTail", func(s string, a ...any) string { return s + "tail" }),
+		textwire.RegisterStrFunc("zzArg", func(s string, a ...any) string {
+			if len(a) == 1 {
+				if t, ok := a[0].(string); ok {
+					return t
+				}
+			}
+			return "(no string argument)"
+		}),
+	} {
+		if err != nil {
+			return err.Error()
+		}
+	}
+	return ""
 }
 
 func c10RawContext(lit string) escCase {
@@ -193,6 +228,9 @@ func c10TreeContexts(lit string) []escCase {
 	// every string-API context also as a page of a loaded template (parsed once, rendered twice)
 	var paged []escCase
 	for _, cs := range c10Contexts(lit) {
+		if strings.HasPrefix(cs.Context, "custom") {
+			continue // registered functions: string API only
+		}
 		cs.Tree = map[string]string{"page": cs.Src}
 		cs.Context = "page:" + cs.Context
 		cs.Src = ""
@@ -253,7 +291,7 @@ func TestC10_ContentsEnum(t *testing.T) {
 
 func TestC10_Contexts(t *testing.T) {
 	c := harness.New(t, "C10", "contexts",
-		"random literal contents of 0..12 pieces from the same alphabet, both quote styles, in every usage context of the statement: printed, concatenated on either side, assigned then printed, array element by index / whole array / join, ternary branch, object member, @each element, raw() (direct, after assignment, after concatenation), and through template directories: insert argument, insert block, component argument, slot body, raw() inside a component. Non-trivial: content has one of < > & \" ' and the context is not 'printed'. Distinct by hash of context + source.")
+		"random literal contents of 0..12 pieces from the same alphabet, both quote styles, in every usage context of the statement: printed, concatenated on either side, assigned then printed, array element by index / whole array / join, ternary branch, object member, @each element, raw() (direct, after assignment, after concatenation), handed to a registered Go function that returns it (as receiver, as argument, from a variable, in a loop, with text appended, and raw() of its result), and through template directories: insert argument, insert block, component argument, slot body, raw() inside a component. Non-trivial: content has one of < > & \" ' and the context is not 'printed'. Distinct by hash of context + source.")
 	defer c.Finish()
 	runRapid(t, c, 6000, 75000, func(rt *rapid.T) {
 		content := strings.Join(rapid.SliceOfN(rapid.SampledFrom(c10Pieces), 0, 12).Draw(rt, "content"), "")
